@@ -41,9 +41,13 @@ func (s *ExpressionListRewriter) peekExpressionList() (cypher.ExpressionList, bo
 	return nil, false
 }
 
-func (s *ExpressionListRewriter) hasNegationAncestor() bool {
+// hasNonConjunctiveAncestor returns true if the node being visited sits below a negation, a disjunction or an
+// exclusive disjunction. Only a criterion that is reached through conjunctions alone constrains every result; moving
+// any other criterion out of its expression changes the meaning of the query.
+func (s *ExpressionListRewriter) hasNonConjunctiveAncestor() bool {
 	for idx := len(s.descentStack) - 1; idx >= 0; idx-- {
-		if _, isNegation := s.descentStack[idx].(*cypher.Negation); isNegation {
+		switch s.descentStack[idx].(type) {
+		case *cypher.Negation, *cypher.Disjunction, *cypher.ExclusiveDisjunction:
 			return true
 		}
 	}
@@ -131,7 +135,7 @@ func (s *ExpressionListRewriter) Exit(node cypher.SyntaxNode) {
 		if variable, typeOK := typedNode.Reference.(*cypher.Variable); !typeOK {
 			s.SetErrorf("expected a variable as the reference for a kind matcher but received: %T", node)
 		} else if variable.Symbol == query.EdgeSymbol {
-			if s.hasNegationAncestor() {
+			if s.hasNonConjunctiveAncestor() {
 				return
 			}
 
@@ -141,8 +145,9 @@ func (s *ExpressionListRewriter) Exit(node cypher.SyntaxNode) {
 				s.SetErrorf("expected a match AST node")
 			} else if ancestorExpressionList, isExpressionList := s.peekExpressionList(); !isExpressionList {
 				s.SetErrorf("expected an expression list AST node")
-			} else {
-				firstRelationshipPattern := lastMatch.FirstRelationshipPattern()
+			} else if firstRelationshipPattern := lastMatch.FirstRelationshipPattern(); firstRelationshipPattern != nil && len(firstRelationshipPattern.Kinds) == 0 {
+				// The kinds of a relationship pattern are alternatives. A further matcher on the same relationship
+				// is an additional restriction and has to stay in the where clause.
 				firstRelationshipPattern.Kinds = append(firstRelationshipPattern.Kinds, typedNode.Kinds...)
 
 				ancestorExpressionList.Remove(node)
